@@ -6,7 +6,7 @@ docstrings of encutils and the XML 1.0 grammar — NOT from the code and not fro
 * parse_xmldecl      XML 1.0 production [23] XMLDecl at offset 0 of a document
 * spec_sniff         BOM's encoding, else the declared encoding, else UTF-8
 * spec_info          the documented first-match table for getEncodingInfo
-* region predicates  for the listed known findings
+* region_short       region of the one listed known finding
 """
 import codecs
 import re
@@ -36,11 +36,6 @@ def spec_classify(media_type):
     if m.startswith('text/'):
         return 'text'
     return 'other'
-
-
-def region_regex_literal(media_type):
-    """C20-regex-literal-media-type: the media type is the regex source string that the code keeps in `xml_text_types`"""
-    return bool(media_type) and media_type.strip().lower() == 'text\\/.*?\\+xml'
 
 
 # ----------------------------------------------------------------------------------------------
@@ -116,8 +111,12 @@ def parse_xmldecl(doc):
     -> ('nodecl',)                      the document does not start with an XML declaration ('<?xml' + white space)
        ('wf', enc|None, end, eqspace)   well formed; end = offset after '?>'; eqspace = white space around the '=' of encoding
        ('malformed',)                   starts like a declaration but is not one"""
-    if not doc.startswith('<?xml') or len(doc) < 6 or doc[5] not in _S:
+    if not doc.startswith('<?xml') or len(doc) < 6:
         return ('nodecl',)
+    if doc[5] not in _S:
+        # another PI target (<?xml-stylesheet, <?xmlx): no declaration; anything else after '<?xml' is not XML at all
+        c = doc[5]
+        return ('nodecl',) if (c.isalnum() and not c.isspace()) or c in '-._:' else ('malformed',)
     p = _P(doc)
     p.lit('<?xml')
     p.ws()
@@ -161,39 +160,6 @@ def spec_sniff(doc, include_default=True):
 def region_short(doc):
     """C20-xml-short: fewer than four characters"""
     return len(doc) < 4
-
-
-def region_decl_whitespace(doc):
-    """C20-xmldecl-whitespace: a well-formed declaration with an encoding whose text contains a line feed, or with
-    white space around the '=' of the encoding attribute"""
-    if spec_bom(doc):
-        return False
-    d = parse_xmldecl(doc)
-    return d[0] == 'wf' and d[1] is not None and ('\n' in doc[:d[2]] or d[3])
-
-
-_STRAY = re.compile(r'''encoding=["'][^"']+["'][^\n]*?\?>''')
-
-
-def region_stray_attribute(doc):
-    """C20-xmldecl-stray-attribute: the document starts with '<?xml', declares no encoding (declaration without
-    EncodingDecl, or no declaration at all: another PI target such as xml-stylesheet), and somewhere on its first line
-    (after at least one character) `encoding=` + quote starts a quoted value (which may span lines) that is followed,
-    on the line where it ends, by `?>` — all within the first 2048 characters"""
-    if spec_bom(doc) or not doc.startswith('<?xml'):
-        return False
-    d = parse_xmldecl(doc)
-    if d[0] == 'malformed' or (d[0] == 'wf' and d[1] is not None):
-        return False
-    buf = doc[:2048]
-    nl = buf.find('\n')
-    limit = len(buf) if nl < 0 else nl
-    i = buf.find('encoding=', 6)
-    while 0 <= i < limit:
-        if _STRAY.match(buf, i):
-            return True
-        i = buf.find('encoding=', i + 1)
-    return False
 
 
 # ----------------------------------------------------------------------------------------------
